@@ -50,6 +50,7 @@ var Prop = &engine.Prop{
 		{Name: "mono-wrap-conc", Quick: 48, Thorough: 2000, Repeat: 5, Fn: monoWrapConcCase},
 		{Name: "nano-seq", Quick: 1200, Thorough: 54000, Fn: nanoSeqCase},
 		{Name: "nano-conc", Quick: 72, Thorough: 3200, Repeat: 20, Fn: nanoConcCase},
+		{Name: "node-bounds", Quick: 120, Thorough: 4800, Fn: nodeBoundsCase},
 	},
 	// every floor below is reached deterministically by the generators (they depend on
 	// the scripts, not on scheduling or timing)
@@ -280,3 +281,57 @@ func checkCounter(k *engine.Case, gen string, show func(int64) string, recs [][]
 type logicalClock struct{ v atomic.Int64 }
 
 func (c *logicalClock) tick() int64 { return c.v.Add(1) }
+
+// nodeBoundsCase: "the node field always equals the configured node" - also for node numbers
+// at and beyond the edge of the configured width. A constructor may refuse such a number; a
+// generator it does return must stamp exactly that number into every id (and, like any
+// generator, return strictly increasing ids).
+func nodeBoundsCase(k *engine.Case) {
+	r := k.R
+	l := pickLayout(r)
+	restoreCfg := snowflake.VerifSetConfig(l.epoch, l.nb, l.low)
+	defer restoreCfg()
+	max := int64(1)<<l.nb - 1
+	cands := []int64{max + 1, max + 2, 2 * (max + 1), 2*(max+1) + 5, max + 1 + r.Int63n(max+1), -1, -max, -(max + 1), 1 << 20, 1<<31 + 3, math.MaxInt64, math.MinInt64, max, 0}
+	k.Logf("%s: node numbers around and beyond the width (largest valid %d)", l, max)
+	k.Nontrivial()
+	countLayout(k, "bounds", l)
+	for _, node := range cands {
+		for _, mono := range []bool{false, true} {
+			var n snowflake.Node
+			var err error
+			name := fmt.Sprintf("NewNode(%d, 0)", node)
+			if mono {
+				name = fmt.Sprintf("NewMonoNode(%d)", node)
+				n, err = snowflake.NewMonoNode(node)
+			} else {
+				n, err = snowflake.NewNode(node, 0)
+			}
+			k.Evals(1)
+			if err != nil || n == nil {
+				if node >= 0 && node <= max {
+					k.Fail("node-refused", "%s %s refused a node number inside the configured width: %v", l, name, err)
+					return
+				}
+				k.Count("bounds_refused", 1)
+				continue
+			}
+			k.Count("bounds_accepted", 1)
+			var prev int64
+			for i := 0; i < 3; i++ {
+				id := n.Generate()
+				_, nf, _ := snowflake.IDFields(id)
+				if nf != node {
+					k.Fail("node-field", "%s %s returned a generator whose id %d carries node field %d, not the configured node %d", l, name, id, nf, node)
+					return
+				}
+				if i > 0 && id <= prev {
+					k.Fail("not-increasing", "%s %s: id %d after %d", l, name, id, prev)
+					return
+				}
+				prev = id
+			}
+		}
+	}
+	k.Count("bounds_cases", 1)
+}
